@@ -212,7 +212,7 @@ func runC04(c *Ctx) {
 					if !full && m > 4096 {
 						return
 					}
-					if inv := g.VerifInvariants(s); len(inv) > 0 {
+					if inv := verifInvariants(s); len(inv) > 0 {
 						d = fmt.Sprintf("internal: %v", inv)
 					}
 				}
